@@ -19,7 +19,7 @@ from ..model import AnalysisError, ClassInfo, FunctionInfo, Model
 from ..paths import Path, PathEnumerator, find_calls
 from ..report import Report
 from ..sym import NONE, Evaluator, Term, Unsupported, atoms_of, show, subterms, sym, t_not
-from .common import (call_arg, call_args, effect_calls, function_paths, is_call_of, lookup_or_same, lookup_param_ok, loop_of,
+from .common import (call_arg, call_args, effect_calls, function_paths, is_call_of, lookup_or, lookup_or_same, lookup_param_ok, loop_of,
                      node_iterator_domain, norm_stmt, stores, strip_identity_wrappers)
 
 VALUE_WRAPPERS = ("list", "tuple", "dict", "set", "frozenset")
@@ -252,10 +252,10 @@ def _k3(model: Model, rep: Report):
             cp, reg, add = seq[0][1], seq[1][1], seq[2][1]
             args, kw = call_args(cp)
             given = list(args) + list(kw.values())
-            rep.check(len(given) == 1 and lookup_param_ok(given[0], param), "C05.K3", construct + "[copy-with-lookup]", f.loc,
+            rep.check(len(given) == 1 and lookup_param_ok(given[0], param, p.cond, ev), "C05.K3", construct + "[copy-with-lookup]", f.loc,
                       found=show(cp), required=f"node.operation.copy({param})", what="children are copied without the lookup",
                       detail="child-lookup")
-            ok_reg = lookup_param_ok(reg[1], param) and reg[2] == ("index", orig) and reg[3] == cp
+            ok_reg = lookup_param_ok(reg[1], param, p.cond, ev) and (not given or reg[1] == given[0]) and reg[2] == ("index", orig) and reg[3] == cp
             rep.check(ok_reg, "C05.K3", construct + "[register]", f.loc, found=show(reg), required=f"{param}[node.operation] = <that copy>",
                       what="the lookup entry does not map the original operation to its copy", detail="register")
             res = p.value
@@ -281,47 +281,31 @@ def _k3(model: Model, rep: Report):
             construct = f"{cname}.copy[{rf}]"
             if val is None:
                 continue
+            tbl = lambda t: lookup_param_ok(t, lparam, p.cond, evl)
             if cname == "RelationLink":
                 old = ("attr", lself, rf)
-                ok = False
-                if is_call_of(val, "get") and lookup_param_ok(val[1][1], lparam):
-                    a, kw = call_args(val)
-                    dflt = a[1] if len(a) > 1 else kw.get("default", NONE)
-                    ok = len(a) >= 1 and a[0] == old and dflt == NONE
-                elif val[0] == "sub" and lookup_param_ok(val[1], lparam) and val[2] == old:
-                    ok = True
-                elif val[0] == "ite":
-                    ok = (val[2][0] == "sub" and val[2][2] == old and val[3] == NONE) or \
-                         (val[3][0] == "sub" and val[3][2] == old and val[2] == NONE)
+                ok = lookup_or(evl, p.cond, val, lambda k: k == old, tbl, lambda k: NONE)
                 rep.check(ok, "C05.K3", construct, lf.loc, found=show(val), required=f"{lparam}.get(self.{rf}, None)",
                           what="the copied link does not point at the copy of the referenced operation", detail="link-map")
             else:
-                # the list handed over must be filled, inside a loop over all old references, with lookup[old]
+                # the list handed over: [lookup[old] for old in ALL old references if old in lookup], as a comprehension or as the accumulator loop
+                from ..listflow import as_single_comp
+                comp = as_single_comp(p, val)
                 ok = False
                 why = "reference list is not rebuilt through the lookup"
-                if val[0] == "var":
-                    lp = [e for e in p.events if e.kind == "loop"]
-                    if len(lp) == 1 and lp[0].term == ("attr", lself, rf):
-                        elem = ("bound", "for", lp[0].node.lineno, show(lp[0].term))
-                        apps = []
-                        skipped_known = False
-                        for bp in lp[0].extra["paths"]:
-                            a = [c for e in bp.events if e.kind == "effect" for c in find_calls(e.term, "append") if c[1][1] == val]
-                            in_lookup = [x for x in atoms_of(bp.cond) if x[0] == "in" and x[1] == elem and lookup_param_ok(x[2], lparam)]
-                            present = bool(in_lookup) and bp.cond != t_not(in_lookup[0])
-                            if (not atoms_of(bp.cond)) or present:
-                                apps.append((bp, a))
-                                if len(a) != 1 or a[0][2] != (("sub", in_lookup[0][2] if in_lookup else sym(lparam), elem),):
-                                    why = "an old reference present in the lookup is not mapped to its copy"
-                                    skipped_known = True
-                        ok = bool(apps) and not skipped_known
-                    elif lp:
-                        why = f"loop ranges over {show(lp[0].term)} instead of all references"
-                elif val[0] == "comp" and len(val[3]) == 1:
-                    gen_it, conds = val[3][0]
-                    ok = gen_it == ("attr", lself, rf) and val[2][0] == "sub" and lookup_param_ok(val[2][1], lparam) and \
-                        all(c[0] == "in" for c in conds)
-                rep.check(ok, "C05.K3", construct, lf.loc, found=show(val), required=f"[{lparam}[op] for op in self.{rf} (if known)]",
+                if comp[0] == "comp" and comp[1] == "list" and len(comp[3]) == 1:
+                    gen_it, conds = comp[3][0]
+                    if gen_it != ("attr", lself, rf):
+                        why = f"ranges over {show(gen_it)} instead of all references"
+                    else:
+                        b_ = comp[2][2] if comp[2][0] == "sub" else None
+                        mapped = comp[2][0] == "sub" and tbl(comp[2][1]) and b_ is not None and b_[0] == "bound"
+                        # the only filter allowed: membership of that same element in that same lookup (unknown references are dropped, known ones kept)
+                        filt = all(c == ("in", b_, comp[2][1]) for c in conds) if mapped else False
+                        ok = mapped and filt
+                        if mapped and not filt:
+                            why = "an old reference present in the lookup is not mapped to its copy"
+                rep.check(ok, "C05.K3", construct, lf.loc, found=show(comp), required=f"[{lparam}[op] for op in self.{rf} (if known)]",
                           what=why, detail="link-map")
 
 
